@@ -102,9 +102,9 @@ type c19op struct {
 
 func c19n(tier string) int {
 	if tier == "thorough" {
-		return 40000
+		return 200000
 	}
-	return 1200
+	return 4000
 }
 
 func c19run(c *fw.Ctx, idx int) {
